@@ -407,12 +407,14 @@ namespace GeographicLib {
       drho = ((den != 0 && isfinite(den))
               ? (x*nx + y * (ny - 2*_nrho0)) / den
               : den);
-    drho = fmin(drho, _drhomax);
-    if (_n == 0)
-      drho = fmax(drho, -_drhomax);
+    // The limits are applied with comparisons (instead of fmin and fmax) so
+    // that a NaN in x or y is passed on to the results.
+    if (drho > _drhomax) drho = _drhomax;
+    if (_n == 0 && drho < -_drhomax) drho = -_drhomax;
+    real tnm1 = _t0nm1 + _n * drho/_scale;
+    // Ensure tnm1 >= -1 (it's -1 at the apex)
+    if (tnm1 < -1) tnm1 = -1;
     real
-      // Ensure tnm1 >= -1 (it's -1 at the apex)
-      tnm1 = fmax(real(-1), _t0nm1 + _n * drho/_scale),
       dpsi = (den == 0 ? 0 :
               (tnm1 + 1 != 0 ? - Dlog1p(tnm1, _t0nm1) * drho / _scale :
                ahypover_));
